@@ -1,17 +1,15 @@
 #!/bin/bash
-# import_seeded.sh <ID>: copies /tmp/seed_out/<ID>/{patchI.diff,demoI.rs,metaI.json} to /verif/seeded/<ID>_I/
-ID="$1"
+# import_seeded.sh <src_dir> <ID> <first_suffix>
+# copies <src_dir>/<ID>/{patchI.diff,demoI.rs} (I = 1,2) to /verif/seeded/<ID>_<first_suffix + I - 1>/
+# and records where they came from; tools/finalize_seeded.py then writes meta.json.
+SRC="$1"; ID="$2"; FIRST="${3:-1}"
 for i in 1 2; do
-  S=/tmp/seed_out/$ID
+  S=$SRC/$ID
   [ -f $S/patch$i.diff ] || continue
-  D=/verif/seeded/${ID}_$i
+  N=$((FIRST + i - 1))
+  D=/verif/seeded/${ID}_$N
   mkdir -p $D
   cp $S/patch$i.diff $D/patch.diff
   cp $S/demo$i.rs $D/demo.rs
-  python3 - "$S/meta$i.json" "$D/meta.json" "$S/confirm$i.txt" <<'PY'
-import json,sys,os
-m=json.load(open(sys.argv[1]))
-if os.path.exists(sys.argv[3]): m['confirmed_by_main_agent']=open(sys.argv[3]).read().strip().split('\n')
-json.dump(m,open(sys.argv[2],'w'),indent=1)
-PY
+  echo "$S $i" > $D/.source
 done
